@@ -125,6 +125,10 @@ CANARIES = [
     ('c14-attr-any-table', 'C14', 'mindsdb_sql/planner/plan_join.py', "        parts = tuple(map(str.lower, column.parts[:-1]))\n        if parts in self.tables_idx:\n            return self.tables_idx[parts]",
      "        parts = tuple(map(str.lower, column.parts[:-1]))\n        if parts in self.tables_idx:\n            return self.tables_idx[parts]\n        for k in self.tables_idx:\n            return self.tables_idx[k]", 'C14.attr.unknown-table'),
     ('c14-colmap-swapped', 'C14', 'mindsdb_sql/planner/plan_join.py', "                columns_map[arg1.parts[-1]] = arg2\n", "                columns_map[arg2.parts[-1]] = arg1\n", 'C14.colmap.model-left'),
+    ('c11-push-with-udf', 'C11', 'mindsdb_sql/planner/query_planner.py', "                and len(query_info['user_functions']) == 0\n", "", 'C11.shape.user-function'),
+    ('c11-alias-tables-too', 'C11', 'mindsdb_sql/planner/query_planner.py', "            if not is_table:\n                # add table name or alias for identifiers", "            if True:\n                # add table name or alias for identifiers", 'C11.edit.ident.table1'),
+    ('c11-alias-in-joins', 'C11', 'mindsdb_sql/planner/query_planner.py', "                if isinstance(table, Join):\n                    # skip for join\n                    return\n", "", 'C11.edit.ident'),
+    ('c11-no-rewrite', 'C11', 'mindsdb_sql/planner/query_planner.py', "                self.prepare_integration_select(int_name, query)\n\n                last_step = self.plan.add_step(FetchDataframeStep(integration=int_name, query=query))", "                last_step = self.plan.add_step(FetchDataframeStep(integration=int_name, query=query))", 'C11.shape.one-sql-integration'),
 ]
 
 
